@@ -1,9 +1,13 @@
 #!/bin/bash
-# builds the analyzer offline from the module cache (golang.org/x/tools v0.29.0)
+# builds the analyzer offline from the module cache (golang.org/x/tools v0.29.0) and runs the unit tests of
+# its analyses (small self-contained programs; a failing analysis makes every verdict untrustworthy)
 set -e
 cd "$(dirname "$0")/kvcheck"
 export GOFLAGS=-mod=mod GOPROXY=off GOSUMDB=off GOTOOLCHAIN=local GOWORK=off CGO_ENABLED=0
 mkdir -p ../bin ../evidence/replay
 go build -o ../bin/kvcheck .
-go vet ./... >/dev/null 2>&1 || true
+if [ -z "${KV_SKIP_UNIT:-}" ]; then
+  if ! go test ./engine/ ./rules/ > /tmp/kvcheck-unit.$$ 2>&1; then cat /tmp/kvcheck-unit.$$; rm -f /tmp/kvcheck-unit.$$; echo "unit tests of the analyses failed"; exit 1; fi
+  tail -3 /tmp/kvcheck-unit.$$; rm -f /tmp/kvcheck-unit.$$
+fi
 echo "kvcheck built"
